@@ -440,6 +440,14 @@ example :
     tokLine tokTable.pats 1 3 "1 ~".toList 0 = .err 2 := by
   refine ⟨?_, ?_, ?_, ?_, ?_⟩ <;> decide +kernel
 
+/-- … and the hypotheses of `C10_concat_with_blank` are satisfiable: an instance (`a = "x+1"`, `c = ' '`, any `b`). -/
+example (b : List Char) (tb : List Token)
+    (hb : tokLine tokTable.pats 1 (' ' :: b).length (' ' :: b) 0 = .ok tb) :
+    tokLine tokTable.pats 1 ("x+1".toList ++ ' ' :: b).length ("x+1".toList ++ ' ' :: b) 0 =
+      .ok ([⟨"SnakeWord", ['x'], 1, 1, 1, 2⟩, ⟨"\"+\"", ['+'], 1, 2, 1, 3⟩, ⟨"Number", ['1'], 1, 3, 1, 4⟩] ++
+        tb.map (Token.shift 3)) :=
+  (C10_concat_with_blank 1 "x+1".toList b ' ' _ (by decide +kernel) (by decide) (by decide) (by decide)).1 tb hb
+
 /-- The hypothesis about open-ended tokens is needed: a comment swallows what follows. -/
 example : tokLine tokTable.pats 1 4 "#c x".toList 0 = .ok [⟨"Comment", "#c x".toList, 1, 1, 1, 5⟩] := by
   decide +kernel
